@@ -115,6 +115,75 @@ type (
 	}
 )
 
+type lazyM struct{}
+
+func (l *lazyM) LazyInit() {}
+
+// Lazy variants (the container's own processors are LazyInit; user processors may be either).
+type (
+	PlainProcL struct {
+		PlainProc
+		lazyM
+	}
+	PlainProcOL struct {
+		PlainProcO
+		lazyM
+	}
+	PlainProcPL struct {
+		PlainProcP
+		lazyM
+	}
+	InstProcL struct {
+		InstProc
+		lazyM
+	}
+	InstProcOL struct {
+		InstProcO
+		lazyM
+	}
+	InstProcPL struct {
+		InstProcP
+		lazyM
+	}
+	SmartProcL struct {
+		SmartProc
+		lazyM
+	}
+	SmartProcOL struct {
+		SmartProcO
+		lazyM
+	}
+	SmartProcPL struct {
+		SmartProcP
+		lazyM
+	}
+)
+
+// NewLazyProc is NewProc for a processor that is itself marked LazyInit.
+func NewLazyProc(class, orderClass string, order int, core ProcCore) any {
+	switch x := NewProc(class, orderClass, order, core).(type) {
+	case *PlainProc:
+		return &PlainProcL{*x, lazyM{}}
+	case *PlainProcO:
+		return &PlainProcOL{*x, lazyM{}}
+	case *PlainProcP:
+		return &PlainProcPL{*x, lazyM{}}
+	case *InstProc:
+		return &InstProcL{*x, lazyM{}}
+	case *InstProcO:
+		return &InstProcOL{*x, lazyM{}}
+	case *InstProcP:
+		return &InstProcPL{*x, lazyM{}}
+	case *SmartProc:
+		return &SmartProcL{*x, lazyM{}}
+	case *SmartProcO:
+		return &SmartProcOL{*x, lazyM{}}
+	case *SmartProcP:
+		return &SmartProcPL{*x, lazyM{}}
+	}
+	panic("simrt.NewLazyProc: unknown processor type")
+}
+
 // NewProc builds a user post-processor of the given class / order class.
 func NewProc(class, orderClass string, order int, core ProcCore) any {
 	o := ordM{O: order}
